@@ -218,6 +218,8 @@ def run_structured(sim: kernel.Sim, case_rel: str, keep=False, act_mode=False, k
                     loc = getattr(fi, 'source_location', None)
                     if loc is not None and loc.location is not None and loc.location.source is not None:
                         res['line'] = loc.location.source.first_line.line_number
+                        fp = loc.location.file_path_rel_referrer
+                        res['file'] = os.path.basename(str(fp)) if fp is not None else None
             else:
                 res['status'] = r.status.name if r.status.name != 'ACCESS_ERROR' else r.access_error_type.name
         except SimHang as ex:
